@@ -115,7 +115,7 @@ func HarnessC05() {
 	var slots []slot
 	if verif.Bool("withenvelope") {
 		env = &sslibdsse.Envelope{PayloadType: payloadType, Payload: base64.StdEncoding.EncodeToString(payload), Signatures: []sslibdsse.Signature{}}
-		ns := verif.Concrete(verif.IntRange("nslots", 0, verif.Bound("slots", 3, 4)))
+		ns := verif.Concrete(verif.IntRange("nslots", 0, verif.Bound("slots", 3, 3)))
 		for s := 0; s < ns; s++ {
 			sl := slot{key: verif.Choice("s"+strconv.Itoa(s)+".key", len(zz5KeyIDs)), valid: verif.Bool("s" + strconv.Itoa(s) + ".valid")}
 			slots = append(slots, sl)
